@@ -1,6 +1,7 @@
 """C17 — haplotag followed by haplotagphase reproduces the phasing that tagged the reads."""
 import json
 import os
+import zlib
 import random
 import shutil
 import traceback
@@ -65,6 +66,8 @@ SIG_HOM = "haplotagphase:prephased-homozygous-unphased"             # a|a:PS -> 
 SIG_SKIP = "haplotagphase:prephased-on-skipped-record-unphased"     # no ALT / duplicate position / multi-ALT under --no-mav
 SIG_NOKEY = "haplotagphase:prephased-no-ps-key-gains-ps0"           # het a|b with FORMAT GT only -> a|b:0
 SIG_STALE = "history:unselected-sample-phased-from-stale-tags"      # haplotag --sample left old HP/PS tags on other samples
+SIG_MISSING = "haplotagphase:missing-genotype-crash"                # a ./. or 0/. call covered by reads: IndexError in realign
+SIG_COLLIDE = "haplotag:read-name-shared-by-two-samples-mistagged"  # read_to_haplotype is keyed by the read name only
 SIG_PSDOT = "haplotagphase:prephased-ps-missing-rewritten"          # het a|b:. rewritten from the votes
 
 
@@ -119,31 +122,125 @@ def regions_for(rng, sc, chrom, ngroups):
     return out
 
 
-def simulate_region_reads(rng, sc, sample, chrom, lo, hi, cov, len_range, prefix):
+def legal_end(vs, L, p):
+    return p == L or synth.legal_boundary(vs, p)
+
+
+def simulate_region_reads(rng, sc, sample, chrom, lo, hi, cov, len_range, prefix, feat=None, full_span=0):
+    """error-free reads of one sample inside [lo, hi).  feat: pairs / bx / lowq / dup / edge probabilities.
+    full_span = n > 0: exactly n reads that all span the whole region (for exact vote fractions)."""
+    feat = feat or {}
     ref = sc.ref[chrom]
+    L = len(ref)
     vs = sc.variants[chrom]
     haps = sc.haps[sample][chrom]
-    n = max(3, int(cov * (hi - lo) / ((len_range[0] + len_range[1]) / 2)))
+    alts = getattr(sc, "alts", {}).get(chrom, {})
+
+    def walk(h, s, e):
+        # multi-allelic records: the haplotype's own ALT sequence, written as allele 1 of a per-haplotype copy
+        vv, al = [], []
+        for i, (v, x) in enumerate(zip(vs, haps)):
+            a_ = x[h]
+            if a_ >= 2:
+                vv.append(synth.Variant(v.pos, v.ref, alts[i][a_ - 1], v.kind))
+                al.append(1)
+            else:
+                vv.append(synth.Variant(v.pos, v.ref, alts[i][0] if i in alts else v.alt, v.kind))
+                al.append(a_)
+        return synth.hap_walk(ref, vv, al, s, e)
+
+    def clip(s, e):
+        while s < e and not synth.legal_boundary(vs, s):
+            s += 1
+        while e > s and not legal_end(vs, L, e):
+            e -= 1
+        return s, e
+    n = full_span or max(3, int(cov * (hi - lo) / ((len_range[0] + len_range[1]) / 2)))
     reads = []
+    inside = [v for v in vs if lo <= v.pos and v.pos + len(v.ref) < hi]
     for k in range(n):
         h = rng.randint(0, 1)
         length = rng.randint(*len_range)
-        s = rng.randint(lo, max(lo, hi - 30))
-        e = min(hi, s + length)
-        while s < e and not synth.legal_boundary(vs, s):
-            s += 1
-        while e > s and not synth.legal_boundary(vs, e):
-            e -= 1
+        if full_span:
+            s, e = lo, hi
+        else:
+            s = rng.randint(lo, max(lo, hi - 30))
+            e = min(hi, s + length)
+            if inside and rng.random() < feat.get("edge", 0):
+                v = rng.choice(inside)               # a read boundary exactly at a variant
+                if rng.random() < 0.5:
+                    s, e = v.pos, min(hi, v.pos + length)
+                else:
+                    e = min(hi, v.pos + len(v.ref) + 1)
+                    s = max(lo, e - length)
+        s, e = clip(s, e)
         if e - s < 12:
             continue
-        seq, cig = synth.hap_walk(ref, vs, [x[h] for x in haps], s, e)
-        reads.append(dict(name=f"{prefix}{k}", sample=sample, chrom=chrom, start=s, cigar=cig, seq=seq,
-                          qual=rng.choice([20, 30, 30, 40]), hap=h, flag=0, end=e))
+        seq, cig = walk(h, s, e)
+        name = f"{prefix}{k}"
+        r = dict(name=name, sample=sample, chrom=chrom, start=s, cigar=cig, seq=seq,
+                 qual=rng.choice([20, 30, 30, 40]), hap=h, flag=0, end=e)
+        if rng.random() < feat.get("lowq", 0):
+            r["mapq"] = rng.choice([0, 5, 19])
+        if rng.random() < feat.get("dup", 0):
+            r["flag"] |= 0x400
+        if rng.random() < feat.get("bx", 0) and reads and reads[-1]["hap"] == h and "mate_start" not in reads[-1]:
+            bx = reads[-1].setdefault("bx", f"BX{sample}{chrom}{k}")
+            r["bx"] = bx
+        if not full_span and rng.random() < feat.get("pairs", 0):
+            s2 = rng.randint(s, max(s, hi - 30))
+            e2 = min(hi, s2 + rng.randint(*len_range))
+            s2, e2 = clip(s2, e2)
+            if e2 - s2 >= 12:
+                seq2, cig2 = walk(h, s2, e2)
+                r.update(flag=r["flag"] | 0x1 | 0x2 | 0x40 | 0x20, mate_start=s2)
+                reads.append(r)
+                reads.append(dict(name=name, sample=sample, chrom=chrom, start=s2, cigar=cig2, seq=seq2, qual=r["qual"],
+                                  hap=h, flag=0x1 | 0x2 | 0x80 | 0x10, end=e2, mate_start=s))
+                continue
+        reads.append(r)
     return reads
 
 
+def write_bam2(sc, reads, path, rginfo):
+    """indexed BAM. rginfo: dict(header=[(rg id, sample name)] in header order, of={sample: [rg ids]}) or None (no read
+    groups at all). Reads may carry: mapq, flag, bx, tags [(tag, value)], mate_start."""
+    import pysam
+    header = {"HD": {"VN": "1.6", "SO": "coordinate"}, "SQ": [{"SN": c, "LN": len(sc.ref[c])} for c in sc.chroms]}
+    if rginfo:
+        header["RG"] = [{"ID": i, "SM": sm} for i, sm in rginfo["header"]]
+    opmap = {"M": 0, "I": 1, "D": 2}
+    tid = {c: i for i, c in enumerate(sc.chroms)}
+    rs = sorted(reads, key=lambda r: (tid[r["chrom"]], r["start"]))
+    with pysam.AlignmentFile(path, "wb", header=header) as out:
+        for r in rs:
+            a = pysam.AlignedSegment(out.header)
+            a.query_name = r["name"]
+            a.query_sequence = r["seq"]
+            a.flag = r.get("flag", 0)
+            a.reference_id = tid[r["chrom"]]
+            a.reference_start = r["start"]
+            a.mapping_quality = r.get("mapq", 60)
+            a.cigartuples = [(opmap[o], n) for o, n in r["cigar"]]
+            a.query_qualities = pysam.qualitystring_to_array(chr(33 + r.get("qual", 30)) * len(r["seq"]))
+            if "mate_start" in r:
+                a.next_reference_id = tid[r["chrom"]]
+                a.next_reference_start = r["mate_start"]
+            tags = []
+            if rginfo:
+                ids = rginfo["of"][r["sample"]]
+                tags.append(("RG", ids[zlib.crc32(r["name"].encode()) % len(ids)] if len(ids) > 1 else ids[0]))
+            if "bx" in r:
+                tags.append(("BX", r["bx"]))
+            tags += list(r.get("tags", []))
+            a.set_tags(tags)
+            out.write(a)
+    pysam.index(path)
+    return path
+
+
 def parse_calls(f):
-    """[(GT text, PS text or None)] of a VCF line split into fields (FORMAT GT or GT:PS)"""
+    """[(GT text, PS text or None)] of a VCF line split into fields (FORMAT GT[:..][:PS][:..])"""
     fmt = f[8].split(":")
     out = []
     for c in f[9:]:
@@ -153,9 +250,56 @@ def parse_calls(f):
 
 
 def build_line(f, calls, with_ps):
-    f = list(f[:9])
-    f[8] = "GT:PS" if with_ps else "GT"
-    return "\t".join(f + [(f"{g}:{'.' if p_ is None else p_}" if with_ps else g) for g, p_ in calls])
+    """the line with new (GT, PS) per call; FORMAT fields other than GT and PS are kept"""
+    fmt = f[8].split(":")
+    other = [k for k in fmt if k not in ("GT", "PS")]
+    newfmt = ["GT"] + (["PS"] if with_ps else []) + other
+    cols = []
+    for old, (g, p_) in zip(f[9:], calls):
+        v = old.split(":")
+        vals = {k: (v[i] if i < len(v) else ".") for i, k in enumerate(fmt)}
+        cols.append(":".join([g] + (["." if p_ is None else str(p_)] if with_ps else []) + [vals[k] for k in other]))
+    g = list(f[:9])
+    g[8] = ":".join(newfmt)
+    return "\t".join(g + cols)
+
+
+def decorate_vcf(rng, path, deco, missing):
+    """textual decoration of a VCF: ID / FILTER / INFO values and a FORMAT field next to GT(:PS) (deco); genotypes of
+    single calls replaced by ./. or 0/. (missing = probability per call)"""
+    lines = open(path).read().splitlines()
+    out = []
+    for l in lines:
+        if l.startswith("#CHROM") and deco:
+            out += ['##FILTER=<ID=q10,Description="low quality">', '##INFO=<ID=DP,Number=1,Type=Integer,Description="depth">',
+                    '##FORMAT=<ID=DP,Number=1,Type=Integer,Description="depth">',
+                    '##FORMAT=<ID=GQ,Number=1,Type=Integer,Description="genotype quality">']
+        if l.startswith("#"):
+            out.append(l)
+            continue
+        f = l.split("\t")
+        fmt = f[8].split(":")
+        calls = [c.split(":") for c in f[9:]]
+        if missing:
+            for c in calls:
+                if "|" not in c[0] and rng.random() < missing:
+                    c[0] = rng.choice(["./.", "./.", "0/."])
+        if deco:
+            f[2] = f"rs{rng.randint(1, 99999)}" if rng.random() < 0.5 else f[2]
+            f[6] = rng.choice(["PASS", "q10", "."])
+            f[7] = f"DP={rng.randint(1, 90)}"
+            where = rng.choice(["after_gt", "end"])
+            key = rng.choice(["DP", "GQ"])
+            pos_ = 1 if where == "after_gt" else len(fmt)
+            fmt.insert(pos_, key)
+            for c in calls:
+                while len(c) < len(fmt) - 1:
+                    c.append(".")
+                c.insert(pos_, str(rng.randint(1, 60)))
+        f[8] = ":".join(fmt)
+        out.append("\t".join(f[:9] + [":".join(c) for c in calls]))
+    with open(path, "w") as fh:
+        fh.write("\n".join(out) + "\n")
 
 
 def add_extra_records(rng, sc, path):
@@ -231,7 +375,60 @@ def make_spec(rng, stream):
     elif stream == "foreign":
         spec["prephase"] = rng.choice([0.4, 1.0])
         spec["foreign"] = True
+    elif stream == "rawtags":
+        # HP/PS tags written by the harness (no haplotag run): wrong tags in exact proportions, ties, HP/PS edge values
+        spec["phi"] = "synthetic"
+        spec["bmode"] = "same"
+        spec["rawtags"] = dict(n=rng.choice([2, 4, 10, 10, 20]), wrong=rng.choice([0.0, 0.25, 0.3, 0.3, 0.4, 0.5]),
+                               odd=rng.choice([0.0, 0.2]))
+        spec["params"] = rng.choice([None, {"gap": rng.choice([0, 50, 60, 70, 75, 100])}])
+        spec["prephase"] = rng.choice([0.0, 0.3])
+    elif stream == "twice":
+        spec["twice"] = True
+        spec["prephase"] = rng.choice([0.0, 0.5])
+    elif stream == "mav":
+        spec["phi"] = "synthetic"
+        spec["mavrec"] = rng.choice([0.3, 0.6])
+        spec["prephase"] = rng.choice([0.0, 0.4])
+    draw_free(rng, spec)
     return spec
+
+
+SAMPLE_NAMES = ["S1", "S10", "S2", "mother", "child", "father", "NA12878", "a", "B", "zz-top", "sample_1", "sample_11"]
+CHROM_NAMES = ["chr10", "chr2", "chr1", "1", "X", "ctgB", "ctgA", "scaffold_7", "chrUn.1"]
+
+
+def draw_free(rng, spec):
+    """dimensions every stream draws freely: names, read groups, read kinds, chromosome edges, options"""
+    ns, nc = spec["nsamples"], spec["nchrom"]
+    if rng.random() < 0.15:
+        spec["nvars"] = rng.randint(1, 3)
+    if rng.random() < 0.05:
+        spec["het"] = 0.0
+    spec["names"] = "random" if rng.random() < 0.6 else "plain"
+    spec["rg"] = rng.choice(["sample", "ids", "ids", "multi"])
+    spec["feat"] = dict(pairs=rng.choice([0, 0, 0.3]), bx=rng.choice([0, 0, 0.3]), lowq=rng.choice([0, 0, 0.15]),
+                        dup=rng.choice([0, 0, 0.15]), edge=rng.choice([0, 0.3]))
+    spec["edges"] = rng.random() < 0.25
+    spec["emptychrom"] = rng.random() < 0.2
+    spec["psids"] = "extreme" if rng.random() < 0.2 else "usual"
+    spec["deco"] = rng.random() < 0.3
+    io = dict(stdout=rng.random() < 0.25, gz=rng.random() < 0.25)
+    if nc > 1 and rng.random() < 0.5:
+        io["chromosome"] = rng.randint(0, nc - 1)
+    if ns == 1 and not spec.get("history") and rng.random() < 0.25:
+        io["ignore_rg"] = rng.choice(["norg", "foreign"])
+    io["haplotag"] = [o for o in ("--ignore-linked-read", "--tag-supplementary", "--output-threads=2", "--regions",
+                                  "--no-reference", "--skip-missing-contigs") if rng.random() < 0.15]
+    spec["io"] = io
+    if nc > 1 and spec["bmode"] == "same" and rng.random() < 0.2:
+        spec["bmode"] = "dropchrom"
+    if spec["stream"] in ("plain", "prephased") and rng.random() < 0.08:
+        spec["bmode"] = "untagged"
+    # malformed-but-accepted input: single calls with a missing genotype (./. or 0/.)
+    spec["missing"] = 0.15 if rng.random() < 0.12 else 0.0
+    # read names shared by two samples of one BAM
+    spec["collide"] = ns >= 2 and not spec.get("history") and rng.random() < 0.2
 
 
 # =============================================================================== decoding
@@ -255,14 +452,16 @@ def decode_vcf(path):
 
 
 def decode_bam(path, samples):
-    """[(chrom, sample_index, start, end, hp, ps)] for usable primary alignments"""
+    """[(chrom, sample_index, start, end, hp, ps)] for usable primary alignments (sample via the @RG SM field;
+    sample 0 if there are no usable read groups)"""
     import pysam
     out = []
     with pysam.AlignmentFile(path) as bf:
+        sm = {rg["ID"]: rg.get("SM") for rg in bf.header.to_dict().get("RG", [])}
         for a in bf:
             if a.is_unmapped or a.is_secondary or a.is_supplementary:
                 continue
-            rg = a.get_tag("RG") if a.has_tag("RG") else None
+            rg = sm.get(a.get_tag("RG")) if a.has_tag("RG") else None
             si = samples.index(rg) if rg in samples else 0
             hp = a.get_tag("HP") if a.has_tag("HP") else None
             ps = a.get_tag("PS") if a.has_tag("PS") else None
@@ -295,25 +494,77 @@ def _run_pipeline(spec, impl, d):
     import pysam
     os.makedirs(d, exist_ok=True)
     rng = random.Random(spec["seed"])
+    io = spec.get("io") or {}
+    feat = spec.get("feat") or {}
     kinds = ("snv", "snv", "ins", "del", "mnp")
+    snames = cnames = None
+    if spec.get("names") == "random":
+        nrng = random.Random(spec["seed"] + 1)
+        snames = nrng.sample(SAMPLE_NAMES, spec["nsamples"])
+        cnames = nrng.sample(CHROM_NAMES, spec["nchrom"])
     sc = synth.make_scenario(rng, nchrom=spec["nchrom"], nsamples=spec["nsamples"], nvars=spec["nvars"], kinds=kinds,
-                             het_fraction=spec["het"], min_gap=40)
+                             het_fraction=spec["het"], min_gap=40, sample_names=snames, chrom_names=cnames)
     res = {"spec": spec, "steps": {}, "chroms": {}}
+    xr = random.Random(spec["seed"] + 2)          # draws of the newer dimensions (keeps older replays reproducible)
+    if spec.get("edges"):
+        for c in sc.chroms:
+            vs = sc.variants[c]
+            if vs and vs[-1].kind == "snv" and vs[-1].pos - vs[0].pos >= 120 and xr.random() < 0.7:   # a variant on the last base
+                sc.ref[c] = sc.ref[c][:vs[-1].pos + 1]
+                res["edge_last"] = res.get("edge_last", 0) + 1
+            if vs and vs[0].kind == "snv" and len(sc.ref[c]) - vs[0].pos >= 120 and xr.random() < 0.7:   # ... on the first base
+                cut = vs[0].pos
+                sc.ref[c] = sc.ref[c][cut:]
+                for v in vs:
+                    v.pos -= cut
+                res["edge_first"] = res.get("edge_first", 0) + 1
+    sc.alts = {}
+    if spec.get("mavrec"):
+        # genuinely multi-allelic SNVs: ALT "X,Y"; the sample's genotype uses alleles from {0, 1, 2}
+        for c in sc.chroms:
+            sc.alts[c] = {}
+            for i, v in enumerate(sc.variants[c]):
+                if v.kind == "snv" and xr.random() < spec["mavrec"]:
+                    a2 = xr.choice([x for x in "ACGT" if x not in (v.ref, v.alt)])
+                    sc.alts[c][i] = [v.alt, a2]
+                    v.alt = v.alt + "," + a2
+                    for s_ in sc.samples:
+                        sc.haps[s_][c][i] = tuple(xr.choice([(1, 2), (2, 1), (0, 2), (2, 0), (0, 1), (2, 2)]))
+    if spec.get("emptychrom"):
+        name = "empty_ctg"
+        sc.ref[name] = synth.random_seq(xr, 300)
+        sc.variants[name] = []
+        for s_ in sc.samples:
+            sc.haps[s_][name] = []
+        sc.chroms.insert(xr.randint(0, len(sc.chroms)), name)
+        sc.ref = {c: sc.ref[c] for c in sc.chroms}
     groups = {}
     for c in sc.chroms:
         if not sc.variants[c]:
             continue
-        if spec["homop"]:
+        if spec["homop"] and not spec.get("edges") and not spec.get("mavrec"):
             plant_homopolymers(rng, sc, c, spec["homop"])
         groups[c] = regions_for(rng, sc, c, spec["ngroups"])
+        if spec.get("edges"):
+            L = len(sc.ref[c])
+            lo, hi, idx = groups[c][-1]
+            if sc.variants[c][-1].pos == L - 1:
+                groups[c][-1] = (lo, L, idx)
     # reads A (for phasing) and B (tagged / given to haplotagphase)
+    raw = spec.get("rawtags")
     reads_a = []
     for s in sc.samples:
         for c in groups:
             for gi, (lo, hi, idx) in enumerate(groups[c]):
-                reads_a += simulate_region_reads(rng, sc, s, c, lo, hi, spec["cov"], (60, 220), f"{s}_{c}_g{gi}_r")
+                pre = "r_" if spec.get("collide") else f"{s}_"
+                rr = simulate_region_reads(rng, sc, s, c, lo, hi, spec["cov"], (60, 220), f"{pre}{c}_g{gi}_r",
+                                           feat=feat, full_span=raw["n"] if raw else 0)
+                for r_ in rr:
+                    r_["gi"] = gi
+                reads_a += rr
     if spec["bmode"] == "subsample":
-        reads_b = [r for r in reads_a if rng.random() < 0.5]
+        keepn = {r["name"] for r in reads_a if rng.random() < 0.5}
+        reads_b = [r for r in reads_a if r["name"] in keepn]
     elif spec["bmode"] == "window":
         c = rng.choice(list(groups)) if groups else None
         vs = sc.variants[c] if c else []
@@ -323,18 +574,42 @@ def _run_pipeline(spec, impl, d):
         reads_b = [r for r in reads_a if not (r["chrom"] == c and r["start"] < w1 and r["end"] > w0)]
     elif spec["bmode"] == "dropsample":
         reads_b = [r for r in reads_a if r["sample"] == sc.samples[0]]      # the last sample has no reads at all
+    elif spec["bmode"] == "dropchrom":
+        gone = sorted(groups)[0] if groups else None
+        reads_b = [r for r in reads_a if r["chrom"] != gone]                # a chromosome with records but no reads
     else:
         reads_b = list(reads_a)
+    if not reads_b:
+        reads_b = list(reads_a)      # whatshap rejects a BAM without any alignment ("No reads could be retrieved")
+    if not reads_a:
+        res["degenerate"] = "no read could be simulated"
+        return res
+    # read groups
+    rgmode = spec.get("rg", "sample")
+    irg = io.get("ignore_rg")
+    if irg == "norg":
+        rginfo = None
+    elif irg == "foreign":
+        rginfo = dict(header=[("lane1", "somebody_else")], of={sc.samples[0]: ["lane1"]})
+    else:
+        of, header = {}, []
+        for k, s_ in enumerate(sc.samples):
+            ids = [s_] if rgmode == "sample" else ([f"rg{7 - k}"] if rgmode == "ids" else [f"L{k}a", f"L{k}b"])
+            of[s_] = ids
+            header += [(i_, s_) for i_ in ids]
+        xr.shuffle(header)
+        rginfo = dict(header=header, of=of)
+    irg_args = ["--ignore-read-groups"] if irg else []
     fa = synth.write_fasta(sc, os.path.join(d, "ref.fa"))
     synth.write_vcf(sc, os.path.join(d, "in.vcf"))
-    synth.write_bam(sc, reads_a, os.path.join(d, "A.bam"))
-    synth.write_bam(sc, reads_b, os.path.join(d, "B.bam"))
+    write_bam2(sc, reads_a, os.path.join(d, "A.bam"), rginfo)
+    write_bam2(sc, reads_b, os.path.join(d, "B.bam"), rginfo)
 
     # ---- step 1: the phased VCF
     phased = os.path.join(d, "phased.vcf")
     if spec["phi"] == "phase":
-        rc, so, se = _cli(impl, ["phase", "--reference", fa, "-o", phased, os.path.join(d, "in.vcf"),
-                                 os.path.join(d, "A.bam")], d)
+        rc, so, se = _cli(impl, ["phase", "--reference", fa, "-o", phased] + irg_args +
+                          [os.path.join(d, "in.vcf"), os.path.join(d, "A.bam")], d)
         res["steps"]["phase"] = rc
         if rc != 0:
             res["failed"] = ("phase", se[-1500:])
@@ -359,6 +634,8 @@ def _run_pipeline(spec, impl, d):
                         parts = [het] if het else []
                     for part in parts:
                         psid = rng.choice([sc.variants[c][part[0]].pos + 1, rng.randint(1, 5000)])
+                        if spec.get("psids") == "extreme":
+                            psid = xr.choice([0, 1, 2147483647, psid])
                         flip = rng.randint(0, 1)
                         for i in part:
                             if spec["phi"] != "noisy" and rng.random() < 0.15:
@@ -371,6 +648,8 @@ def _run_pipeline(spec, impl, d):
                                 flipped.haps[s][c][i] = (b, a)
         synth.write_vcf(flipped, phased, phased=ph)
         res["steps"]["phase"] = 0
+    if spec.get("deco") or spec.get("missing"):
+        decorate_vcf(xr, phased, spec.get("deco"), spec.get("missing", 0.0))
     extra_keys = add_extra_records(rng, sc, phased) if spec.get("extras") else set()
     pysam.tabix_index(phased, preset="vcf", force=True, keep_original=True)
 
@@ -416,12 +695,47 @@ def _run_pipeline(spec, impl, d):
 
     # ---- step 2: haplotag
     tagged = os.path.join(d, "tagged.bam")
-    rc, so, se = _cli(impl, ["haplotag", "--reference", fa, "-o", tagged] + sel_args + [phased + ".gz", bam_in], d)
-    res["steps"]["haplotag"] = rc
-    if rc != 0:
-        res["failed"] = ("haplotag", se[-1500:])
-        return res
-    pysam.index(tagged)
+    if raw:
+        # the harness writes the HP/PS tags itself: per region the tags of the phasing, `wrong` of the n reads with the
+        # other haplotype, some reads with HP 0 / 3 or PS 0 / no PS
+        by_region = {}
+        for r in reads_b:
+            by_region.setdefault((r["sample"], r["chrom"], r["gi"]), []).append(r)
+        for (s_, c, gi), rs in by_region.items():
+            idx = groups[c][gi][2]
+            phd = [i for i in idx if i in ph[s_][c]]
+            if not phd:
+                continue
+            f0, psid = flipinfo[(s_, c, phd[0])], ph[s_][c][phd[0]]
+            bad = set(xr.sample(range(len(rs)), int(round(raw["wrong"] * len(rs)))))
+            for k, r in enumerate(rs):
+                hp = (r["hap"] ^ f0) + 1
+                if k in bad:
+                    hp = 3 - hp
+                tags = [("HP", hp), ("PS", psid)]
+                if xr.random() < raw["odd"]:
+                    tags = xr.choice([[("HP", 0), ("PS", psid)], [("HP", 3), ("PS", psid)], [("HP", hp), ("PS", 0)],
+                                      [("HP", hp)], [("PS", psid)]])
+                r["tags"] = tags
+        write_bam2(sc, reads_b, tagged, rginfo)
+    elif spec["bmode"] == "untagged":
+        write_bam2(sc, reads_b, tagged, rginfo)            # haplotag never ran: no read carries a tag
+    else:
+        hopts = list(io.get("haplotag") or [])
+        args = ["haplotag", "-o", tagged] + irg_args + sel_args
+        args += ["--no-reference"] if "--no-reference" in hopts else ["--reference", fa]
+        for o in hopts:
+            if o == "--regions":
+                for c in sc.chroms:
+                    args += ["--regions", xr.choice([c, f"{c}:1-{len(sc.ref[c])}", f"{c}:1"])]
+            elif o != "--no-reference":
+                args.append(o)
+        rc, so, se = _cli(impl, args + [phased + ".gz", bam_in], d)
+        res["steps"]["haplotag"] = rc
+        if rc != 0:
+            res["failed"] = ("haplotag", se[-1500:])
+            return res
+        pysam.index(tagged)
 
     # ---- step 3: unphase (real CLI), then put some phased records back
     rc, so, se = _cli(impl, ["unphase", phased], d)
@@ -433,7 +747,9 @@ def _run_pipeline(spec, impl, d):
     ulines = [l for l in so.splitlines()]
     phead, pbody = [l for l in plines if l.startswith("#")], [l for l in plines if not l.startswith("#")]
     ubody = [l for l in ulines if not l.startswith("#")]
-    assert len(pbody) == len(ubody)
+    if len(pbody) != len(ubody):
+        res["failed"] = ("unphase", f"unphase wrote {len(ubody)} records for {len(pbody)} input records")
+        return res
     body = []
     nkept = 0
     unrec = spec.get("unrec", 0.0)
@@ -505,11 +821,34 @@ def _run_pipeline(spec, impl, d):
         extra += ["--only-indels"]
     if spec.get("nomav"):
         extra += ["--no-mav"]
-    rc, so, se = _cli(impl, ["haplotagphase", "--reference", fa, "-o", final] + extra + [inp, tagged], d)
+    extra += irg_args
+    sel_chrom = None
+    real_chroms = [c for c in sc.chroms if sc.variants[c]]
+    if io.get("chromosome") is not None and real_chroms:
+        sel_chrom = real_chroms[io["chromosome"] % len(real_chroms)]
+        extra += ["--chromosome", sel_chrom]
+    if spec.get("twice"):
+        # history: haplotagphase applied to its own output (with the same reads)
+        first = os.path.join(d, "first.vcf")
+        rc, so, se = _cli(impl, ["haplotagphase", "--reference", fa, "-o", first] + extra + [inp, tagged], d)
+        res["steps"]["haplotagphase_first"] = rc
+        if rc != 0:
+            res["failed"] = ("haplotagphase", se[-1500:])
+            return res
+        inp = first
+    inp_arg = inp
+    if io.get("gz"):
+        pysam.tabix_index(inp, preset="vcf", force=True, keep_original=True)
+        inp_arg = inp + ".gz"
+    rc, so, se = _cli(impl, ["haplotagphase", "--reference", fa] + ([] if io.get("stdout") else ["-o", final]) + extra +
+                      [inp_arg, tagged], d)
     res["steps"]["haplotagphase"] = rc
     if rc != 0:
         res["failed"] = ("haplotagphase", se[-1500:])
         return res
+    if io.get("stdout"):
+        with open(final, "w") as fh:
+            fh.write(so)
 
     # ---- the same run in process, with the arguments/results of compute_votes and consensus recorded
     import logging
@@ -534,10 +873,14 @@ def _run_pipeline(spec, impl, d):
     H.compute_votes, H.consensus = cv, cs
     try:
         final2 = os.path.join(d, "final_inproc.vcf")
-        H.run_haplotagphase(variant_file=inp, alignment_file=tagged, reference=fa, output=final2,
+        H.run_haplotagphase(variant_file=inp_arg, alignment_file=tagged, reference=fa, output=final2,
                             write_command_line_header=False, gap_threshold=pr.get("gap", 70),
                             cut_poly=pr.get("cut", 10), only_indels=bool(pr.get("only_indels")),
-                            mav=not spec.get("nomav"))
+                            mav=not spec.get("nomav"), ignore_read_groups=bool(irg),
+                            chromosomes=[sel_chrom] if sel_chrom else [])
+    except BaseException:
+        res["inproc_exc"] = traceback.format_exc()[-1500:]
+        return res
     finally:
         H.compute_votes, H.consensus = cv0, cs0
     b1 = [l for l in open(final).read().splitlines() if not l.startswith("##")]
@@ -545,15 +888,29 @@ def _run_pipeline(spec, impl, d):
     res["inproc_equal"] = b1 == b2
 
     # ---- decode
-    samples, t_orig = decode_vcf(phased)
-    _, t_inp = decode_vcf(inp)
-    _, t_out = decode_vcf(final)
-    aln = decode_bam(tagged, samples)
+    try:
+        samples, t_orig = decode_vcf(phased)
+        _, t_inp = decode_vcf(inp)
+        _, t_out = decode_vcf(final)
+        aln = decode_bam(tagged, samples)
+    except Exception:
+        res["unreadable"] = traceback.format_exc()[-1500:]
+        return res
     chroms = [c for c in sc.chroms if c in t_inp]
+    nproc = sum(1 for c in chroms if sel_chrom is None or c == sel_chrom)
+    if len(cap) != 2 * len(samples) * nproc:
+        res["inproc_exc"] = f"compute_votes/consensus were called {len(cap)} times for {nproc} chromosomes x {len(samples)} samples"
+        return res
     ci = 0
     for c in chroms:
         votes, csts, readss = [], [], []
+        untouched = sel_chrom is not None and c != sel_chrom
         for s in samples:
+            if untouched:
+                readss.append([])
+                votes.append([])
+                csts.append([[], []])
+                continue
             kv, kc = cap[ci], cap[ci + 1]
             ci += 2
             assert kv[0] == "votes" and kc[0] == "cons"
@@ -577,8 +934,7 @@ def _run_pipeline(spec, impl, d):
             rsets.append(sets)
         res["chroms"][c] = dict(ref=[BASE_CODE.get(b, 4) for b in sc.ref[c]], orig=orig, inp=inpt, out=out,
                                 reads=readss, votes=votes, cst=csts, cover=cover, rsets=rsets, mav=not spec.get("nomav"),
-                                unsel=unsel)
-    assert ci == len(cap), (ci, len(cap))
+                                unsel=unsel, untouched=untouched)
     return res
 
 
@@ -635,7 +991,8 @@ def case_term(spec, ch):
     return (f"(mkCase {params} {_zl(ch['ref'])} {table_term(ch['orig'])} {table_term(ch['inp'])} "
             f"{table_term(ch['out'])} {reads} {votes} {csts} {cover} {rsets} {term(bool(ch.get('mav', True)))} "
             f"{_zl([r[4] for r in ch['inp']])} "
-            + ("[" + "; ".join(f"{i}%nat" for i in ch.get("unsel", [])) + "]" if ch.get("unsel") else "(@nil nat)") + ")")
+            + ("[" + "; ".join(f"{i}%nat" for i in ch.get("unsel", [])) + "]" if ch.get("unsel") else "(@nil nat)")
+            + " " + term(bool(ch.get("untouched"))) + ")")
 
 
 CHECKS = {
@@ -733,6 +1090,43 @@ def fmt_call(c):
 
 
 # =============================================================================== driver
+def tally_dimensions(ctx, spec, r):
+    """one counter per value of every generator dimension (ends up in evidence: coverage.input_distribution)"""
+    t = ctx.tally
+    io, feat = spec.get("io") or {}, spec.get("feat") or {}
+    t(f"dim.nsamples.{spec['nsamples']}")
+    t(f"dim.nchrom.{spec['nchrom']}")
+    t("dim.nvars." + ("1-3" if spec["nvars"] <= 3 else "4-14"))
+    t(f"dim.het_fraction.{spec['het']}")
+    t(f"dim.names.{spec.get('names', 'plain')}")
+    t(f"dim.read_groups.{io.get('ignore_rg') and 'ignore-read-groups:' + io['ignore_rg'] or spec.get('rg', 'sample')}")
+    for k in ("pairs", "bx", "lowq", "dup", "edge"):
+        if feat.get(k):
+            t(f"dim.reads.{k}")
+    for k in ("edges", "emptychrom", "deco", "twice", "collide", "extras", "nomav", "foreign"):
+        if spec.get(k):
+            t(f"dim.{k}")
+    if spec.get("missing"):
+        t("dim.missing_genotypes")
+    if spec.get("mavrec"):
+        t("dim.multiallelic_genotypes")
+    t(f"dim.psids.{spec.get('psids', 'usual')}")
+    t("dim.output." + ("stdout" if io.get("stdout") else "file"))
+    t("dim.input_vcf." + ("gz+tbi" if io.get("gz") else "plain"))
+    if io.get("chromosome") is not None:
+        t("dim.option.--chromosome")
+    for o in io.get("haplotag") or []:
+        t("dim.haplotag_option." + o)
+    pr = spec.get("params") or {}
+    for k, v in pr.items():
+        t(f"dim.param.{k}={v}")
+    if spec.get("rawtags"):
+        t(f"dim.rawtags.n={spec['rawtags']['n']},wrong={spec['rawtags']['wrong']}")
+    for k in ("edge_first", "edge_last"):
+        if r.get(k):
+            t("dim.variant_on_" + ("first" if k == "edge_first" else "last") + "_base", r[k])
+
+
 def run_specs(ctx, specs, label):
     base = workdir(ctx)
     jobs = [dict(spec=s, impl=ctx.impl, dir=os.path.join(base, f"p{i}")) for i, s in enumerate(specs)]
@@ -748,8 +1142,18 @@ def run_specs(ctx, specs, label):
         if spec.get("history"):
             ctx.tally(f"history.second_run_selects_{spec['history']}")
             ctx.tally("history.alignments_with_stale_tags", r.get("stale_tagged", 0))
+        tally_dimensions(ctx, spec, r)
+        if "degenerate" in r:
+            ctx.tally("pipelines.degenerate_not_run")
+            continue
         if "fatal" in r:
-            raise RuntimeError("pipeline worker crashed:\n" + r["fatal"])
+            if "ModuleNotFoundError" in r["fatal"] or "ImportError" in r["fatal"]:
+                raise RuntimeError("pipeline worker crashed:\n" + r["fatal"])
+            # an exception while driving or decoding the implementation's files: reported with the input, not swallowed
+            ctx.count(("fatal", json.dumps(spec, sort_keys=True)), nontrivial=False)
+            ctx.violation("pipeline:exception", f"exception while running the pipeline / reading its files (spec {spec}): "
+                          + r["fatal"][-700:], {"spec": spec})
+            continue
         if "failed" in r:
             step, msg = r["failed"]
             if "ModuleNotFoundError" in msg or "ImportError" in msg:
@@ -757,8 +1161,21 @@ def run_specs(ctx, specs, label):
                 raise RuntimeError(f"scratch build unusable while running `whatshap {step}` (rebuilt concurrently?): "
                                    + msg[-400:])
             ctx.count(("failed", json.dumps(spec, sort_keys=True)), nontrivial=False)
-            ctx.violation(f"pipeline:{step}-failed", f"`whatshap {step}` exits non-zero on generated input "
-                          f"(spec {spec}): {msg[-600:]}", {"spec": spec})
+            sig = f"pipeline:{step}-failed"
+            if step == "haplotagphase" and spec.get("missing") and "realign" in msg and "IndexError" in msg:
+                sig = SIG_MISSING
+            ctx.violation(sig, f"`whatshap {step}` exits non-zero on generated input "
+                          f"(spec {spec}): {msg[-600:]}", {"spec": spec, "signature": sig})
+            continue
+        if "inproc_exc" in r:
+            ctx.count(("inproc", json.dumps(spec, sort_keys=True)), nontrivial=False)
+            ctx.violation("haplotagphase:run_haplotagphase-raises", "the CLI run succeeds but run_haplotagphase called in "
+                          f"process on the same files fails (spec {spec}): {r['inproc_exc'][-600:]}", {"spec": spec})
+            continue
+        if "unreadable" in r:
+            ctx.count(("unreadable", json.dumps(spec, sort_keys=True)), nontrivial=False)
+            ctx.violation("haplotagphase:output-unreadable", f"a file of the pipeline cannot be read back with pysam "
+                          f"(spec {spec}): {r['unreadable'][-600:]}", {"spec": spec})
             continue
         if not r.get("inproc_equal", True):
             ctx.violation("haplotagphase:cli-differs-from-run_haplotagphase",
@@ -777,6 +1194,26 @@ def run_specs(ctx, specs, label):
                 for c_ in rec[3]:
                     if c_[1]:
                         ctx.tally("prephased_calls.class%d" % call_class(sk, rec[2], c_))
+            if ch.get("untouched"):
+                ctx.tally("cases.chromosome_not_requested")
+            if not ch["inp"] or not any(ch["reads"]):
+                ctx.tally("cases.no_reads_for_any_sample")
+            for v_ in ch["votes"]:
+                for p_, m_ in v_:
+                    ws = sorted((w for _, _, w in m_), reverse=True)
+                    tot = sum(ws)
+                    if len(ws) >= 2 and ws[0] == ws[1]:
+                        ctx.tally("votes.tie_for_best")
+                    if tot and 100 * ws[0] == 70 * tot:
+                        ctx.tally("votes.fraction_exactly_at_threshold_70")
+                    elif tot and 100 * ws[0] < 70 * tot:
+                        ctx.tally("votes.fraction_below_70")
+                    if len(m_) > 2:
+                        ctx.tally("votes.position_with_two_phase_sets")
+            for rs_ in ch["reads"]:
+                for r_ in rs_:
+                    if r_[1] not in (-1, 1, 2) or r_[0] in (0,):
+                        ctx.tally("reads.odd_HP_or_PS_tag")
             ctx.tally("newly_phased_calls", sum(1 for ri, ro in zip(ch["inp"], ch["out"])
                                                 for a, b in zip(ri[3], ro[3]) if b[1] and not a[1]))
     if not cases:
@@ -827,12 +1264,17 @@ def report(ctx, meta, failing):
                            "a variant phased by haplotagphase has a phase set that no covering tagged read carries")):
         for i in failing[lab]:
             spec, c, ch = meta[i]
-            if spec["stream"] == "noisy":
-                # by construction the phased VCF contradicts the reads' haplotypes: outside the property's
-                # precondition (L2-only stream); haplotagphase rightly follows the reads there
-                ctx.tally("noisy." + lab + ".not_applicable")
+            if spec["stream"] in ("noisy", "rawtags"):
+                # by construction the phased VCF / the tags contradict the reads' haplotypes: outside the property's
+                # precondition (L2-only streams); haplotagphase rightly follows the tagged reads there
+                ctx.tally(spec["stream"] + "." + lab + ".not_applicable")
                 continue
-            ctx.violation(sig, f"{txt} (chromosome {c}, pipeline spec {spec})", {"spec": spec, "signature": sig})
+            sig_, txt_ = sig, txt
+            if spec.get("collide"):
+                sig_ = SIG_COLLIDE
+                txt_ = ("with read names shared by two samples of the BAM, haplotag tags a read with the decision made for "
+                        "the other sample's read of that name; " + txt)
+            ctx.violation(sig_, f"{txt_} (chromosome {c}, pipeline spec {spec})", {"spec": spec, "signature": sig_})
     # L2: the code follows the model with the repaired rule (Fixed); a tree that follows Cur is a disagreement
     cur_bad = sorted(set(failing["L2cur"]) | set(failing["L2consCur"]))
     fix_bad = sorted(set(failing["L2fix"]) | set(failing["L2consFix"]))
@@ -841,7 +1283,18 @@ def report(ctx, meta, failing):
         l2.append(("HaplotagPhase.compute_votes = compute_votes (L2)", failing["L2votes"]))
     # under --no-mav the multi-ALT records are missing from the reads haplotagphase sees, so the tag decision cannot be
     # replayed on them (haplotag saw these records as biallelic)
-    tags_bad = [i for i in failing["L2tags"] if not meta[i][0].get("nomav")]
+    def tags_replayable(sp):
+        # the tag decision is replayed on the reads haplotagphase sees; not possible when haplotag saw other records
+        # (--no-mav / multi-allelic records are skipped by haplotag), pooled linked reads, or never ran
+        io_, feat_ = sp.get("io") or {}, sp.get("feat") or {}
+        return not (sp.get("nomav") or sp.get("mavrec") or sp.get("rawtags") or sp["bmode"] == "untagged"
+                    or "--no-reference" in (io_.get("haplotag") or [])      # other allele detection at tagging time
+                    or (feat_.get("bx") and "--ignore-linked-read" not in (io_.get("haplotag") or [])))
+    tags_bad = [i for i in failing["L2tags"] if tags_replayable(meta[i][0])]
+    # shared read names: a tag that is not the sample's own decision is the same defect as SIG_COLLIDE; it is a violation
+    # of this property only where it changes what haplotagphase phases (L1 above), so it is tallied, not reported
+    ctx.tally("collide.cases_with_foreign_tags", sum(1 for i in tags_bad if meta[i][0].get("collide")))
+    tags_bad = [i for i in tags_bad if not meta[i][0].get("collide")]
     if tags_bad:
         l2.append(("HaplotagPhase.tags_of (haplotag_decide) = HP/PS tags written by haplotag (L2)", tags_bad))
     # the premises of the theorems hold on the data for which clause 1 is checked
@@ -880,7 +1333,21 @@ def run(ctx):
     specs.append(dict(seed=31, stream="history", nvars=8, nsamples=2, nchrom=1, het=1.0, ngroups=2, cov=5, homop=0.0,
                       phi="synthetic", bmode="same", prephase=0.0, foreign=False, params=None, unrec=0.0, extras=False,
                       nomav=False, history="first"))
-    plan = [("history", ctx.n(3, 40)), ("plain", ctx.n(14, 200)), ("prephased", ctx.n(12, 160)), ("unrecognised", ctx.n(4, 50)),
+    specs.append(dict(seed=41, stream="rawtags", nvars=6, nsamples=1, nchrom=1, het=1.0, ngroups=2, cov=5, homop=0.0,
+                      phi="synthetic", bmode="same", prephase=0.0, foreign=False, params=None, unrec=0.0, extras=False,
+                      nomav=False, rawtags=dict(n=10, wrong=0.3, odd=0.0)))          # fraction exactly 0.7
+    specs.append(dict(seed=42, stream="rawtags", nvars=6, nsamples=1, nchrom=1, het=1.0, ngroups=2, cov=5, homop=0.0,
+                      phi="synthetic", bmode="same", prephase=0.0, foreign=False, params={"gap": 50}, unrec=0.0,
+                      extras=False, nomav=False, rawtags=dict(n=4, wrong=0.5, odd=0.2)))   # ties
+    # corpus: two samples whose reads share their names; a call with a missing genotype under the reads
+    specs.append(dict(seed=57, stream="plain", nvars=6, nsamples=2, nchrom=1, het=1.0, ngroups=1, cov=8, homop=0.0,
+                      phi="synthetic", bmode="same", prephase=0.0, foreign=False, params=None, unrec=0.0, extras=False,
+                      nomav=False, collide=True))
+    specs.append(dict(seed=53, stream="plain", nvars=6, nsamples=1, nchrom=1, het=1.0, ngroups=1, cov=8, homop=0.0,
+                      phi="synthetic", bmode="same", prephase=0.0, foreign=False, params=None, unrec=0.0, extras=False,
+                      nomav=False, missing=0.3))
+    plan = [("history", ctx.n(3, 40)), ("rawtags", ctx.n(4, 50)), ("twice", ctx.n(2, 25)), ("mav", ctx.n(3, 30)),
+            ("plain", ctx.n(14, 200)), ("prephased", ctx.n(12, 160)), ("unrecognised", ctx.n(4, 50)),
             ("bridged", ctx.n(4, 40)), ("noisy", ctx.n(4, 40)), ("params", ctx.n(4, 40)), ("foreign", ctx.n(3, 30))]
     for stream, k in plan:
         for _ in range(k):
